@@ -377,6 +377,7 @@ def graph_inputs(p):
     for code, ch, und in G.pdag_code_range(p, 0, 4 ** G.npairs(p)):
         out.append(("pdag", code, _g.pdag_matrix(p, ch, und)))
         out.append(("pdagf", code, _g.pdag_matrix(p, ch, und).astype(float)))
+        out.append(("pdagb", code, _g.pdag_matrix(p, ch, und).astype(bool)))       # a conversion to bool is then not a copy
         if not any(und):
             out.append(("wdag", code, _g.np_dag(p, ch, "generic")))
     return out
@@ -546,7 +547,7 @@ def describe(tier, seed):
         "rule": "histories over %d operations (two instances of every class; LGANM float, int and non-dyadic variants: population / finite sampling with do, shift, noise, overlapping, None, {}; NormalDistribution "
                 "marginal, conditional, regress, mse, sample; ANM sampling plain and intervened) and 3 hostile moves (overwrite returned arrays, overwrite constructor "
                 "inputs, mutate passed dicts): all histories of length <= %d, BFS with deduplication to depth %d; invariant: attribute snapshot and method defaults unchanged, "
-                "every operation equals its result on a fresh model. Registry: %d graph utilities on every PDAG p<=3 (int and float) and weighted DAG, for every node / "
+                "every operation equals its result on a fresh model. Registry: %d graph utilities on every PDAG p<=3 (int, float and bool matrices) and weighted DAG, for every node / "
                 "ordered pair / node subset argument, plus split_data, generators, noise, class constructors and methods, semi (stand-in backend): arguments byte-identical "
                 "afterwards, np.shares_memory(result, argument/model) false, writing 777 into results changes nothing. non-trivial: non-empty history / non-empty graph" % (
                     len(ALPHA), 2 if tier == "quick" else 4, 3 if tier == "quick" else 4, sum(len(x) for x in graph_functions()) + 12),
